@@ -20,7 +20,7 @@ RULE = ("one case per chain dictionary rendered by a viewer; non-trivial = the c
 ANCHORS = ["decaylanguage.decay.viewer:DecayChainViewer._build_decay_graph", "decaylanguage.decay.viewer:DecayChainViewer.__init__",
            "decaylanguage.decay.viewer:DecayChainViewer.to_string"]
 WORKERS = {"quick": 4, "thorough": 16}
-REQUIRED = {"chain-dictionary-with-shared-sub-table-objects": 10, "viewer-with-graph-node-edge-attributes": 10, "cascade-deeper-than-21-levels": 2, "line-without-daughters": 5, "branching-fraction-zero": 10, "table>=4-lines-distinct-bf": 20, "leaf-line-daughters-unsorted": 20, "repeated-decaying-daughter": 10, "empty-table-daughter": 10,
+REQUIRED = {"viewer-object-used-again-after-its-first-use-was-abandoned": 5, "chain-dictionary-with-shared-sub-table-objects": 10, "viewer-with-graph-node-edge-attributes": 10, "cascade-deeper-than-21-levels": 2, "line-without-daughters": 5, "branching-fraction-zero": 10, "table>=4-lines-distinct-bf": 20, "leaf-line-daughters-unsorted": 20, "repeated-decaying-daughter": 10, "empty-table-daughter": 10,
             "from-class-representation": 10, "evtgen-specific-name": 20, "alias-or-unknown-name": 20, "depth>=3": 10, "daughters>=5-in-ported-node": 5,
             "graphs-in-one-process>=3": 1, "same-lists-in-both-node-roles": 10, "two-lines-same-daughters-same-bf": 5, "dot-accepted": 50, "graph-made-in-a-worker-thread": 10, "viewer-with-name-and-format-options": 10, "line-with>10-daughters": 5, "evtgen-specific-spelling-drawn": 20, "branching-fraction-with>12-significant-digits": 20}
 ASSUMPTIONS = ["Graphviz `dot` and the particle package's LaTeX->HTML name conversion are trusted", "labels contain no '<' or '&' (label alphabet)",
